@@ -53,6 +53,17 @@ DATATYPES = {
     # (an unknown unit: the stock function raises TypeError, not ValueError)
     "timedelta": (["4w 2d", "1.5h", "14s"], "5x"),
 }
+# further refused values (numbers no float can hold, infinities, a unit with
+# nothing in front ...): refused like the plain ones
+MORE_INVALID = {
+    "byte-size": ["1e999kb", "infmb", "Infinitygb", "1.5kb", "kb", "-"],
+    "time-interval": ["9e999h", "-infd", "nans", "0.5h", "1e400m"],
+    "integer": ["1e3", "inf", "0x10", "1_0_"],
+    "float": ["1e", "--1", "1,5"],
+    "port-number": ["-1", "1e3", "65536"],
+    "timedelta": ["1e999w", "infd", "9" * 400 + "w"],
+    "boolean": ["", "2", "y es"],
+}
 # stock conversion functions named by their DOTTED names (what a component
 # author writes who does not know the short names): used by components only
 DOTTED_STOCK = {
